@@ -131,6 +131,14 @@ impl<C> Server<C> {
         self.rrl = rrl_params.map(Rrl::new);
     }
 
+    /// Verification hook: makes every RRL bucket look `d` older.
+    #[cfg(feature = "verif_hooks")]
+    pub fn verif_rrl_shift(&self, d: std::time::Duration) {
+        if let Some(ref rrl) = self.rrl {
+            rrl.verif_shift(d);
+        }
+    }
+
     /// Returns the `Server`'s current set of TSIG keys.
     pub fn tsig_keys(&self) -> Arc<TsigKeyMap> {
         self.tsig_keys.read().unwrap().clone()
@@ -215,6 +223,7 @@ where
         // handle_message_with_context method then finishes processing
         // and response creation.
         let catalog = self.catalog();
+        verif_emit!("SnapCatalog", &[]);
         let mut context = Context::new(catalog.as_ref(), received, received_info, response);
         self.handle_message_with_context(&mut context);
 
@@ -426,6 +435,7 @@ where
                     None => return,
                 };
                 let tsig_keys = self.tsig_keys();
+                verif_emit!("SnapKeys", &[]);
                 let key = match find_tsig_key_or_write_error(
                     &tsig_rr,
                     algorithm,
